@@ -1056,6 +1056,138 @@ theorem docWeightI_eq (d : Doc) (out : Out) (t : Totals) (hcalc : calculate exac
   rw [hcalc]
   simp only [ht]
 
+/-! ## the category rows of the tax summary as presented figures -/
+
+/-- the exact amount (`selP`) / surcharge (`selS`) of tax category `k`: Σ rows Σ combos of the
+category, exact row total (included tax taken out) × percentage / surcharge percentage -/
+def catExactQ (sel : ℚ → ℚ → ℚ) (d : Doc) (k : String) : ℚ :=
+  ((exactRowsW d).map (fun er => rowG sel k (remQ d.includes er.1 er.2.1) er.2.1)).sum
+
+theorem rowG_diff (sel : ℚ → ℚ → ℚ)
+    (hsel : ∀ cb, ComboOk ret cb → ∀ p, cb.percent = some p → |sel p.amount.toRat (surC cb)| ≤ 1)
+    (k : String) (taxes : List Combo) (h : ∀ cb ∈ taxes, ComboOk ret cb) (T t : ℚ) :
+    |rowG sel k T taxes - rowG sel k t taxes| ≤ (kN (some k) taxes : ℚ) * |T - t| := by
+  simp only [rowG, kN]
+  refine list_sum_diff_le _ _ _ _ ?_
+  intro cb hcb
+  have hmem : cb ∈ taxes := (List.mem_filter.mp hcb).1
+  unfold comboG
+  cases hp : cb.percent with
+  | none => simp
+  | some p =>
+    simp only
+    have hle := hsel cb (h cb hmem) p hp
+    have e : T * sel p.amount.toRat (surC cb) - t * sel p.amount.toRat (surC cb) =
+        (T - t) * sel p.amount.toRat (surC cb) := by ring
+    rw [e, abs_mul]
+    calc |T - t| * |sel p.amount.toRat (surC cb)| ≤ |T - t| * 1 := mul_le_mul_of_nonneg_left hle (abs_nonneg _)
+      _ = |T - t| := mul_one _
+
+theorem selP_le (cb : Combo) (h : ComboOk ret cb) (p : Pct) (hp : cb.percent = some p) :
+    |selP p.amount.toRat (surC cb)| ≤ 1 := h.2.1 p hp
+
+theorem selS_le (cb : Combo) (h : ComboOk ret cb) (p : Pct) (_ : cb.percent = some p) :
+    |selS p.amount.toRat (surC cb)| ≤ 1 := by
+  have h1 := surC_le cb h
+  have h2 : ((cW cb : ℕ) : ℚ) ≤ 2 := by
+    unfold cW; split <;> norm_num
+  show |surC cb| ≤ 1
+  linarith
+
+/-- the reduced rows of a document of the class: the summary is the plain summary of the reduced
+rows, which are of the class, carry the same combos, and are within their weight (+ the division)
+of the exact reduced rows -/
+theorem doc_reduced (d : Doc) (p : Pre) (tx : TaxTotal) (hd : DocTI ret d) (hpre : pre exactOps d = .ok p)
+    (htx : taxTotal exactOps d.rule d.c d.includes p.rows = .ok tx) :
+    d.c + 2 ≤ p.sum.exp ∧
+    taxTotal exactOps .precise d.c none (p.rows.map (remRow d.c d.includes)) = .ok tx ∧
+    (∀ rw ∈ p.rows.map (remRow d.c d.includes), RowOk ret p.sum.exp rw) ∧
+    (∀ F : ℚ → List Combo → ℚ,
+      ((p.rows.map (remRow d.c d.includes)).map (fun rw => F rw.total.toRat rw.taxes)).sum =
+      (p.rows.map (fun rw => F (remRow d.c d.includes rw).total.toRat rw.taxes)).sum) ∧
+    (∀ rw ∈ p.rows, (∀ cb ∈ rw.taxes, ComboOk ret cb) ∧
+      ∀ q, |(remRow d.c d.includes rw).total.toRat - remQ d.includes q rw.taxes| ≤
+        |rw.total.toRat - q| + (incB d.includes rw.taxes : ℚ) * halfUlp (d.c + 2)) := by
+  obtain ⟨hrel, _, hsexp, _, _, _, _, _, _⟩ := pre_spec d p hd.base hpre
+  have hok := rows_ok d p hd hpre
+  rw [hd.base.rule] at htx
+  have hrem : ∀ rw ∈ p.rows, (remRow d.c d.includes rw).taxes = rw.taxes ∧ RowOkP ret d.c p.sum.exp (remRow d.c d.includes rw) ∧
+      ∀ q, |(remRow d.c d.includes rw).total.toRat - remQ d.includes q rw.taxes| ≤
+        |rw.total.toRat - q| + (incB d.includes rw.taxes : ℚ) * halfUlp (d.c + 2) :=
+    fun rw hrw => remRow_ok d.c p.sum.exp d.includes rw (hok rw hrw).1 hsexp (hok rw hrw).2
+  have hfix : ∀ rw ∈ p.rows, prepareRow d.c (remRow d.c d.includes rw) = remRow d.c d.includes rw :=
+    fun rw hrw => prepareRow_fix d.c _ (hrem rw hrw).2.1.2.1
+  refine ⟨hsexp, taxTotal_reduce d.c d.includes p.rows tx hfix htx, ?_, ?_, fun rw hrw => ⟨(hok rw hrw).1.1, (hrem rw hrw).2.2⟩⟩
+  · intro rw hrw
+    simp only [List.mem_map] at hrw
+    obtain ⟨x, hx, rfl⟩ := hrw
+    exact ⟨(hrem x hx).2.1.1, (hrem x hx).2.1.2.2⟩
+  · intro F
+    rw [List.map_map]
+    congr 1
+    apply List.map_congr_left
+    intro x hx
+    simp only [Function.comp, (hrem x hx).1]
+
+/-- **the category rows** of a calculated document of the class `DocTI`: every category of the
+presented tax summary shows (half-away rounding at currency precision of the working amount
+`precise`) a working amount within `#rate groups + rowsWL kN` half-units of the exact amount of the
+category, and its surcharge likewise of the exact surcharge -/
+theorem cat_rows_shown (d : Doc) (out : Out) (t : Totals) (hd : DocTI ret d)
+    (hcalc : calculate exactOps d = .ok out) (ht : out.totals = some t)
+    (txp : TaxTotal) (htp : t.taxes = some txp) (k : String) (ct : CatTotal)
+    (hf : txp.cats.find? (fun ct => ct.code == k) = some ct) :
+    Spec.C01.presents d.c ct.amount ct.precise.toRat ∧
+    |ct.precise.toRat - catExactQ selP d k| ≤
+      ((ct.rates.length + rowsWL (kN (some k)) d.includes d : ℕ) : ℚ) * halfUlp (d.c + 2) ∧
+    ∃ ws : Option Amount, ct.surcharge = ws.map (·.rescaleX d.c) ∧
+      |optQ ws - catExactQ selS d k| ≤
+        ((ct.rates.length + rowsWL (kN (some k)) d.includes d : ℕ) : ℚ) * halfUlp (d.c + 2) := by
+  obtain ⟨p, tx, hpre, htx, _, htr⟩ := calculate_unpack d out t hcalc ht
+  have htxp : txp = tx := by
+    rw [htr] at htp
+    simp only [roundTotals, rawTotals] at htp
+    split at htp
+    · cases htp
+    · injection htp with htp; exact htp.symm
+  subst htxp
+  obtain ⟨hrel, _, _, _, _, _, _, _, _⟩ := pre_spec d p hd.base hpre
+  obtain ⟨hsexp, htx', hrows', hsumF, hremG⟩ := doc_reduced d p txp hd hpre htx
+  have hrr := rows_rel d p hd.base hpre
+  obtain ⟨_, c2⟩ := taxTotal_cat d.c p.sum.exp _ txp hrows' hsexp htx' k
+  obtain ⟨_, g2, g3, ws, g4, g5⟩ := c2 ct hf
+  rw [hsumF (rowG selP k)] at g3
+  rw [hsumF (rowG selS k)] at g5
+  have eP := rows_err_g (rowG selP k) (kN (some k)) d.c d.includes p.rows (exactRowsW d)
+    (fun taxes h T t => rowG_diff selP selP_le k taxes h T t) hrr hremG
+  have eS := rows_err_g (rowG selS k) (kN (some k)) d.c d.includes p.rows (exactRowsW d)
+    (fun taxes h T t => rowG_diff selS selS_le k taxes h T t) hrr hremG
+  rw [ers_weight (kN (some k)) d.includes d p.lines hrel] at eP eS
+  refine ⟨?_, ?_, ws, g4, ?_⟩
+  · rw [g2]; exact presents_rescale d.c _
+  · set A := (p.rows.map (fun rw => rowG selP k (remRow d.c d.includes rw).total.toRat rw.taxes)).sum
+    have e : ct.precise.toRat - catExactQ selP d k = (ct.precise.toRat - A) + (A - catExactQ selP d k) := by ring
+    rw [e]
+    refine le_trans (abs_add_le _ _) ?_
+    unfold catExactQ
+    push_cast
+    linarith
+  · set A := (p.rows.map (fun rw => rowG selS k (remRow d.c d.includes rw).total.toRat rw.taxes)).sum
+    have e : optQ ws - catExactQ selS d k = (optQ ws - A) + (A - catExactQ selS d k) := by ring
+    rw [e]
+    refine le_trans (abs_add_le _ _) ?_
+    unfold catExactQ
+    push_cast
+    linarith
+
+/-- the exact amount of the included category is `tax_included` of `Spec.C01.exactQ` -/
+theorem catExactQ_included (d : Doc) (k : String) (h : d.includes = some k) :
+    catExactQ selP d k = (Spec.C01.exactQ d).taxIncluded := by
+  rw [exactQ_inc_rows]
+  unfold catExactQ
+  rw [h]
+  rfl
+
 end Err
 end Calc
 end GoblVerif
